@@ -62,7 +62,7 @@ fn main() {
         "C10" => c10::run_c10(&mut r),
         "C12" => c12::run(&mut r),
         "C13" => c13::run(&mut r),
-        "C15" => c15::run(&mut r),
+        "C15" => { c15::run(&mut r); c02::run(&mut r) }
         _ => {}
     }
     println!("{}", json!({"property": prop, "cases": r.cases, "failing": r.failing}));
